@@ -60,6 +60,10 @@ class DeblendMachine(Machine):
             # a label made of two detached regions (the documented result of
             # merging labels with reassign_label, or a hand-built image)
             'merge_labels': rng.chance(0.12),
+            # image data in non-native byte order (what a FITS reader hands
+            # over); a labels= selection that names a label twice
+            'big_endian': rng.chance(0.12),
+            'dup_labels': rng.chance(0.2),
             # the result is deblended once more (two-call history)
             'second_pass': rng.chance(0.3),
             'fault_tier': self.fault_tier,
@@ -126,6 +130,8 @@ class DeblendMachine(Machine):
                 for _ in range(ncore)])
             thr = 5.0
             sc = {'data': data, 'noise': 1.0, 'offset': 10.0}
+        if cfg.get('big_endian'):
+            data = data.astype('>f8')
         out = {'data': enc(data), 'threshold': thr}
         if cfg['entry'] == 'finder':
             return out
@@ -155,6 +161,9 @@ class DeblendMachine(Machine):
             k = rng.randint(1, len(labs))
             sub = rng.sample([int(x) for x in labs], k)
             out['labels'] = sub if rng.chance(0.8) else sub[0]
+            if cfg.get('dup_labels') and isinstance(out['labels'], list):
+                # e.g. the concatenation of two selections
+                out['labels'] = out['labels'] + [rng.pick(out['labels'])]
             if rng.chance(0.05):
                 out['labels'] = []
         else:
